@@ -23,7 +23,7 @@ checks = {
    note="Bounds: 1 block, depth 6/8 (sequential); 18 thread configurations at P<=3 (thorough 4); 380 crash points. Promotion equalising the counters is checked by E-B/E-F (C04, C07).",
    technique="explicit-state BFS with replay on the real replica.Server vs reference model"),
  "C11": dict(engine=EA, design="§3 E-A, §4 C11",
-   text="(1) BFS over every chain of up to 5 (thorough 6) snapshots x user/auto x marked-removed x every checkpoint position, built with real operations; in every state the real GetDeleteCandidateChain must return only snapshots strictly between base and checkpoint that are not retained user snapshots and whose parent is not one. (2) BFS from three non-initial chains in which every deletion the cleaner itself would perform (each candidate the real filter returns, via prepare -> fold -> RemoveDiffDisk) is an event, interleaved with writes/snapshots/marks; after every path live data and every retained user snapshot are compared with the model (extent walk and revert-on-copy); head/latest/base deletion requests must be refused with the state unchanged. (3) Engine E-B part C11rest on REAL replica nodes: the user's DELETE ...?action=deleteSnapshot through the real controller REST handler, for every snapshot name, the checkpoint and an unknown name, in every state reached by snapshots with failing subsets, monitor failures (also undelivered), REST ERR, removal and a real rebuild: it marks a snapshot removed only when all RF replicas are RW (ground truth), a checkpoint is recorded and the target is not the checkpoint; a refused request marks nothing.",
+   text="(1) BFS over every chain of up to 5 (thorough 6) snapshots x user/auto x marked-removed x every checkpoint position, built with real operations; in every state the real GetDeleteCandidateChain must return only snapshots strictly between base and checkpoint that are not retained user snapshots and whose parent is not one. (2) BFS from three non-initial chains in which every deletion the cleaner itself would perform (each candidate the real filter returns, via prepare -> fold -> RemoveDiffDisk) is an event, interleaved with writes/snapshots/marks; after every path live data and every retained user snapshot are compared with the model (extent walk and revert-on-copy); head/latest/base deletion requests must be refused with the state unchanged. (3) Engine E-B part C11rest on REAL replica nodes: the user's DELETE ...?action=deleteSnapshot through the real controller REST handler, for every snapshot name, the checkpoint and an unknown name, in every state reached by snapshots with failing subsets, monitor failures (also undelivered), REST ERR, removal and a real rebuild: it marks a snapshot removed only when all RF replicas are RW (ground truth), a checkpoint is recorded and the target is not the checkpoint; a refused request marks nothing; and the REAL sync.Task.InternalSnapshotCleaner goroutine of each replica, its 60 s ticker driven by hand (Tick, or TickF = the coalesce step fails), interleaved with writes, snapshots and user deletions on a chain with automatic snapshots between base and checkpoint: a cleaner iteration never changes what the live volume reads nor a retained user snapshot.",
    note="Trusted: reference model; sparse.FoldFile in-process stands for the sfold child.",
    technique="explicit-state BFS with replay on the real replica.Server + real cleaner filter vs reference model"),
  "C12": dict(engine=EA, design="§3 E-A, §4 C12",
@@ -44,7 +44,7 @@ checks = {
    note="Replica nodes are the sequential model eb/node.go behind the real REST client code; a failing call fails before it is applied. RF 1-3, depth 4 from roots / 6-7 from the initial state (thorough +2). Monitor wake-ups are drained after each event (C02 does not quantify over schedules).",
    technique="explicit-state BFS with replay on the real controller, all failing subsets per I/O"),
  "C03": dict(engine=EB, design="§3 E-B, §4 C03",
-   text="Explicit-state BFS over every order of membership and mode changes (start, add, verify, I/O error, monitor failure, removal, REST set-mode ERR/RW, snapshot failure, restart) interleaved with writes/syncs/unmaps for RF 1-5: a mutating call reaches a replica only if at least floor(RF/2)+1 replicas are RW (ground truth from the replica list), a call refused as read-only touches no replica, and in every quiescent state ReadOnly is exactly (RW < quorum).",
+   text="Explicit-state BFS over every order of membership and mode changes (start, add, verify, I/O error, monitor failure, removal, REST set-mode ERR/RW, snapshot failure, restart) interleaved with writes/syncs/unmaps for RF 1-5: a mutating call reaches a replica only if at least floor(RF/2)+1 replicas are RW (ground truth from the replica list), a call refused as read-only touches no replica, and in every quiescent state ReadOnly is exactly (RW < quorum). Part 2 (engine E-D, C03conc): all interleavings (preemption bound 3) of pairs/triples of concurrent controller calls (writes, failing writes, syncs, unmaps, monitor failure, removal, REST ERR) from five memberships incl. exactly-at-quorum: when an operation's first replica call arrives, at least floor(RF/2)+1 replicas are RW in the replica list, and an operation refused as read-only reaches no replica.",
    note="Model nodes; monitor wake-ups drained (the stale-cache window is C13/C18's subject). Quorum-type replicas outside the alphabet.",
    technique="explicit-state BFS with replay on the real controller"),
  "C04": dict(engine=EB, design="§3 E-B, §4 C04",
